@@ -59,6 +59,12 @@ func (e *Enc) execLockOp(op string, c *ssa.CallCommon, in ssa.Instruction) bool 
 	}
 	recv := c.Args[0]
 	lref := e.val(recv).T
+	if g, isG := recv.(*ssa.Global); isG && g.Pkg != nil {
+		if gd := e.W.C.GlobalLocks[g.Pkg.Pkg.Path()+"."+g.Name()]; gd != nil {
+			e.execGlobalLockOp(op, gd, g, lref, in)
+			return true
+		}
+	}
 	if _, _, d, k := e.lockTarget(recv); !k || d == nil {
 		// a lock that no `lock … protects` declaration mentions (e.g. a per-key user-level mutex handed from one
 		// call to the next): not part of the monitor discipline, no sequential effect
@@ -239,6 +245,10 @@ func (e *Enc) acquireHavoc(obj Term, st types.Type, decl *LockDecl) {
 
 // guardCheck: access to a protected field needs its lock (or a fresh, still unshared object).
 func (e *Enc) guardCheck(addr ssa.Value, write bool, pos token.Pos) {
+	if g, isG := addr.(*ssa.Global); isG {
+		e.guardCheckGlobal(g, write, pos)
+		return
+	}
 	fa, ok := addr.(*ssa.FieldAddr)
 	if !ok {
 		return
@@ -318,4 +328,101 @@ func (e *Enc) lockEnv(obj Term, st types.Type, cur, old *State) *specEnv {
 		env.pkg = n.Obj().Pkg()
 	}
 	return env
+}
+
+// ---- package-level locks: `globallock mu protects var1 var2`, `globallockinv mu <expr>` ----
+
+func (e *Enc) globalEnv(gd *LockDecl, g *ssa.Global) *specEnv {
+	env := e.newSpecEnv(e.cur, e.init)
+	env.noLocals = true
+	env.pkg = g.Pkg.Pkg
+	return env
+}
+
+func (e *Enc) execGlobalLockOp(op string, gd *LockDecl, g *ssa.Global, lref Term, in ssa.Instruction) {
+	H := e.heldArr(e.cur)
+	cur := tSel(H, lref)
+	site := e.ordName("lock:" + op)
+	switch op {
+	case "lock", "rlock":
+		e.oblige("lock", site, tEq(cur, "0"), in.Pos(), "lock is not already held by this goroutine (self-deadlock)")
+		v := "2"
+		if op == "rlock" {
+			v = "1"
+		}
+		e.hset(e.cur, "$held", heldSort, tStore(H, lref, v))
+		for _, p := range gd.Protects {
+			pg, ok := g.Pkg.Members[p].(*ssa.Global)
+			if !ok {
+				e.unsupported("globallock protects unknown variable " + p)
+				continue
+			}
+			l := e.globalLoc(pg)
+			if l.Kind != lGlobal {
+				continue
+			}
+			nv := e.fresh("acq_"+p, e.sortOf(l.Typ))
+			e.assume(e.typeFacts(nv, l.Typ, e.cur))
+			e.store(e.cur, l, nv)
+			if mt, isMap := l.Typ.Underlying().(*types.Map); isMap {
+				for _, h := range e.mapHeaps(mt) {
+					_, vs := splitArraySort(h[1])
+					Hm := e.hget(e.cur, h[0], h[1])
+					e.hset(e.cur, h[0], h[1], tStore(Hm, nv, e.fresh("acq_"+p+"_content", vs)))
+				}
+				ml := e.mapHeaps(mt)[2]
+				e.assume(tLe("0", tSel(e.hget(e.cur, ml[0], ml[1]), nv)))
+			}
+		}
+		env := e.globalEnv(gd, g)
+		for _, cl := range gd.Invs {
+			e.assume(env.evalBool(cl.Expr))
+		}
+	case "unlock", "runlock":
+		want := "2"
+		if op == "runlock" {
+			want = "1"
+		}
+		e.oblige("lock", site, tEq(cur, want), in.Pos(), "unlock of a lock held in the matching mode")
+		if op == "unlock" {
+			env := e.globalEnv(gd, g)
+			for i, cl := range gd.Invs {
+				o := e.oblige("lockinv", fmt.Sprintf("lockinv:%s.%d@%s", gd.Field, i, site), env.evalBool(cl.Expr), in.Pos(), cl.Src)
+				o.setLabel(cl.Label)
+			}
+		}
+		e.hset(e.cur, "$held", heldSort, tStore(H, lref, "0"))
+	}
+	e.used["mutual exclusion and happens-before of sync.Mutex/RWMutex (monitor rule, DESIGN.md §3)"] = true
+}
+
+// guardCheckGlobal: access to a package-level variable protected by a package-level lock.
+func (e *Enc) guardCheckGlobal(g *ssa.Global, write bool, pos token.Pos) {
+	if g.Pkg == nil {
+		return
+	}
+	for full, gd := range e.W.C.GlobalLocks {
+		if gd.Pkg != g.Pkg.Pkg.Path() {
+			continue
+		}
+		for _, p := range gd.Protects {
+			if p != g.Name() {
+				continue
+			}
+			lg, ok := g.Pkg.Members[gd.Field].(*ssa.Global)
+			if !ok {
+				return
+			}
+			lref := e.val(lg).T
+			h := tSel(e.heldArr(e.cur), lref)
+			goal := tNot(tEq(h, "0"))
+			kind := "guard:read"
+			if write {
+				goal = tEq(h, "2")
+				kind = "guard:write"
+			}
+			e.oblige("guard", e.ordName(kind), goal, pos, fmt.Sprintf("%s accessed with %s held", g.Name(), full))
+			return
+		}
+	}
 }
